@@ -12,3 +12,4 @@ import DateutilVerif.Properties.C05
 #print axioms C05.exists_of_preimage
 #print axioms C05.preimage_of_exists
 #print axioms C05.two_pre_iff
+#print axioms C05.explicit_tz_wins
